@@ -1169,8 +1169,12 @@ impl LZDiff {
             }
         }
 
-        // Remaining bases are literals
-        est_cost += text_size - i;
+        // Remaining bases are literals.
+        // `i` is advanced by len_bck + len_fwd WITHOUT being rewound by len_bck first (this matches
+        // C++ CLZDiff_V2::Estimate), so after a backward-extended match that reaches the end of
+        // the text `i` is larger than `text_size`. C++ relies on unsigned wrap-around here; spell
+        // it out so that builds with overflow checks compute the same value instead of panicking.
+        est_cost = est_cost.wrapping_add(text_size.wrapping_sub(i));
 
         est_cost
     }
